@@ -92,7 +92,7 @@ def _x_int64na(case, d, fmt):
     """nullable Int64 column that contains <NA>: the values travel as float64 (JSON: null forces a float parse; pickle file:
     DataFrame(data=[..., <NA>, ...]) infers float) -> integers beyond 2**53 are rounded"""
     a, b = d.get("_a"), d.get("_b")
-    if d["clause"] != "value" or fmt not in ("json_str", "json_file", "json_buf", "json_enc", "pickle_file"):
+    if d["clause"] != "value" or not (fmt.startswith("json") or fmt in ("pickle_file", "pickle_twice", "pickle_then_json")):   # every format that goes through JSON or to_pickle(path)
         return False
     if not any(dev[0] == "col" and dev[2] == "Int64NA" for dev in case["devs"]) or ".c_Int64NA[" not in d["where"]:
         return False
